@@ -490,7 +490,7 @@ async fn add_adf_problem(
 
         let result = adf_coll
             .update_one(
-                doc! { "name": problem_name, "username": username },
+                doc! { "name": problem_name, "username": username, "code": adf_problem.code },
                 doc! { "$set": { "adf": &adf, "acs_per_strategy.parse_only": &ac_and_graph } },
                 None,
             )
@@ -648,7 +648,7 @@ async fn solve_adf_problem(
             Ok(Ok(acs_and_graphs)) => AcsAndGraphsOpt::Some(acs_and_graphs),
         };
 
-        let result = adf_coll.update_one(doc! { "name": problem_name, "username": username }, match adf_problem_input.strategy {
+        let result = adf_coll.update_one(doc! { "name": problem_name, "username": username, "code": adf_problem.code }, match adf_problem_input.strategy {
             Strategy::Complete => doc! { "$set": { "acs_per_strategy.complete": &acs_and_graphs_enum } },
             Strategy::Ground => doc! { "$set": { "acs_per_strategy.ground": &acs_and_graphs_enum } },
             Strategy::Stable => doc! { "$set": { "acs_per_strategy.stable": &acs_and_graphs_enum } },
